@@ -20,7 +20,7 @@ import (
 
 type c04Params struct {
 	mode  string // onest | handler | free1 | free2 | free3
-	event string // none | fin | notif-rx | handler-notif | close | rst (an UPDATE, then RST)
+	event string // none | fin | notif-rx | handler-notif | close | rst (an UPDATE, then RST) | hdr-fault (a corrupted marker)
 	hold  int
 	// join: OnClose waits until the free writer goroutines of the session have returned from the
 	// WriteUpdate call they are in (a plugin that joins its announcer before it lets go of a session)
@@ -155,6 +155,11 @@ func c04Run(p c04Params, ch vrt.Chooser, trace bool) (*world.World, *vrt.Exec, *
 						r.Send(wire.Update([]byte("EVENT")))
 						r.C.Reset()
 						return
+					case "hdr-fault":
+						// a header with a corrupted marker: corebgp answers (1,1) while the writers are writing
+						m := wire.GoodMarker
+						m[5] = 0
+						r.Send(wire.RawHeader(m, 19, wire.TypeKeepalive))
 					}
 				}
 				r.Deadline(0)
@@ -256,6 +261,25 @@ func c04Judge(p c04Params, w *world.World, e *vrt.Exec, o *c04Obs) (string, stri
 			lastPos[key] = pos
 		}
 	}
+	if p.event == "hdr-fault" {
+		// the NOTIFICATION answering the fault is on the first connection, whole and exactly once
+		n := 0
+		for _, c := range w.NW.Conns {
+			if !c.Lib {
+				continue
+			}
+			for _, m := range libFrames(c.Sent) {
+				if m.Type == wire.TypeNotification {
+					if code, sub, _ := m.Notif(); code == 1 && sub == 1 {
+						n++
+					}
+				}
+			}
+		}
+		if n != 1 {
+			return "notification-count", fmt.Sprintf("a corrupted marker was received while plugin goroutines were writing: %d intact (1,1) NOTIFICATIONs on the wire, expected exactly one", n)
+		}
+	}
 	// every UPDATE on the wire is explained by a call (markers excluded)
 	for id, us := range connUpd {
 		for i, u := range us {
@@ -279,6 +303,12 @@ func c04ScnFor(prop string, p c04Params, bound int) *Scn {
 
 // c04JoinParams are the scenarios in which the plugin's OnClose waits for its writers (also run by C05:
 // a plugin that couples its callbacks must not be able to wedge the peer).
+// c04FaultParams: a header fault arrives while plugin goroutines are inside WriteUpdate (also run by C08:
+// the NOTIFICATION must reach the wire as a message).
+func c04FaultParams() []c04Params {
+	return []c04Params{{mode: "free1", event: "hdr-fault", hold: 9}, {mode: "free2", event: "hdr-fault", hold: 9}}
+}
+
 func c04JoinParams() []c04Params {
 	var out []c04Params
 	for _, ev := range []string{"fin", "notif-rx", "handler-notif", "close"} {
@@ -377,7 +407,7 @@ func c04Scenarios(th bool) []*Scn {
 		bound = 3
 	}
 	for _, mode := range []string{"onest", "handler", "free1", "free2", "free3"} {
-		for _, ev := range []string{"none", "fin", "notif-rx", "handler-notif", "close", "rst"} {
+		for _, ev := range []string{"none", "fin", "notif-rx", "handler-notif", "close", "rst", "hdr-fault"} {
 			for _, hold := range []int{9, 0} {
 				if hold == 0 && !th && ev != "none" && ev != "close" {
 					continue
